@@ -14,6 +14,7 @@ import (
 //   - every composite literal `unusedKey{...}` inside (*linter).lint: field -> source text of the value
 //   - the shape of the merge: the statements `used[key] = true`, `if _, ok := used[key]; !ok { used[key] = false }`,
 //     the guard `allowedAnalyzers[...("U1000")]` around the Unused loop and `if used[uo.key] { continue }` in the emit loop.
+//
 // unused/unused.go
 //   - Results(): the order of the three tests (seen -> Used, quiet -> Quiet, else Unused) and the range g.nodes[1:]
 //   - color(): returns when seen, marks seen, recurses over root.uses
@@ -60,28 +61,40 @@ func genC17(repo string) (map[string]string, error) {
 	if lint == nil {
 		return nil, fmt.Errorf("(*linter).lint not found")
 	}
-	// --- key literals
-	var lits []string
-	ast.Inspect(lint.Body, func(n ast.Node) bool {
-		cl, ok := n.(*ast.CompositeLit)
-		if !ok {
-			return true
+	// --- key literals: every unusedKey{...} literal of the file (wherever a refactoring may have moved it), with the
+	// function it occurs in; and the source text of the package component of each
+	var lits, pkgComponent []string
+	curFunc := ""
+	for _, d := range f.Decls {
+		if fd, ok := d.(*ast.FuncDecl); ok {
+			curFunc = fd.Name.Name
+		} else {
+			curFunc = ""
 		}
-		if id, ok := cl.Type.(*ast.Ident); !ok || id.Name != "unusedKey" {
-			return true
-		}
-		var kvs []string
-		for _, e := range cl.Elts {
-			kv, ok := e.(*ast.KeyValueExpr)
+		ast.Inspect(d, func(n ast.Node) bool {
+			cl, ok := n.(*ast.CompositeLit)
 			if !ok {
-				kvs = append(kvs, "?"+exprText(fset, e))
-				continue
+				return true
 			}
-			kvs = append(kvs, exprText(fset, kv.Key)+" := "+exprText(fset, kv.Value))
-		}
-		lits = append(lits, strings.Join(kvs, "; "))
-		return true
-	})
+			if id, ok := cl.Type.(*ast.Ident); !ok || id.Name != "unusedKey" {
+				return true
+			}
+			var kvs []string
+			for _, e := range cl.Elts {
+				kv, ok := e.(*ast.KeyValueExpr)
+				if !ok {
+					kvs = append(kvs, "?"+exprText(fset, e))
+					continue
+				}
+				kvs = append(kvs, exprText(fset, kv.Key)+" := "+exprText(fset, kv.Value))
+				if exprText(fset, kv.Key) == "pkgPath" {
+					pkgComponent = append(pkgComponent, exprText(fset, kv.Value))
+				}
+			}
+			lits = append(lits, "in "+curFunc+": "+strings.Join(kvs, "; "))
+			return true
+		})
+	}
 	// --- merge shape: collect the statements that touch `used` in order
 	var shape []string
 	ast.Inspect(lint.Body, func(n ast.Node) bool {
@@ -176,7 +189,8 @@ func genC17(repo string) (map[string]string, error) {
 		return "[" + strings.Join(qs, ";\n   ") + "]"
 	}
 	b.WriteString("(* lintcmd/lint.go: type unusedKey struct *)\nDefinition gen_key_fields : list string :=\n  " + q(fields) + ".\n\n")
-	b.WriteString("(* lintcmd/lint.go:lint: every unusedKey{...} literal *)\nDefinition gen_key_literals : list string :=\n  " + q(lits) + ".\n\n")
+	b.WriteString("(* lintcmd/lint.go: every unusedKey{...} literal *)\nDefinition gen_key_literals : list string :=\n  " + q(lits) + ".\n\n")
+	b.WriteString("(* the package component of every key literal: it must be the package PATH, otherwise objects of different packages\n   that share name, file base name and line collide (key_collision_only_suppresses then drops reports) *)\nDefinition gen_key_pkg_component : list string :=\n  " + q(pkgComponent) + ".\n\n")
 	b.WriteString("(* lintcmd/lint.go:lint: statements that read or write the used map / unuseds list, in source order *)\nDefinition gen_merge_shape : list string :=\n  " + q(shape) + ".\n\n")
 	b.WriteString("(* unused/unused.go: color, colorAndQuieten, Results: statements in source order *)\nDefinition gen_color_shape : list string :=\n  " + q(ushape) + ".\n")
 	return map[string]string{"C17_LintShape.v": b.String()}, nil
